@@ -132,6 +132,11 @@ def _other(tree) -> list[tuple]:
 def check_case(case: dict, note: Note) -> Failure | None:
     blocks, o = case["blocks"], case["opts"]
     x, gt_codes, gt_spans = render_doc(blocks)
+    # documented input reading: the text is dedented and stripped first, so a document whose every line is indented (it
+    # would be one indented code block) is read without that indent; the generator always starts with an unindented block
+    if not any(ln[:1] not in (" ", "\t") for ln in x.split("\n") if ln.strip()):
+        note.label("outside_domain_whole_document_indented")
+        return None
     tin = canon.read_out(x)  # a plain GFM reading of the harness's own text (no flowmark pre-processing)
     in_codes = _codeblocks(tin)
     if in_codes != gt_codes:
